@@ -84,6 +84,11 @@ pub trait Property: Sync {
     fn runs(&self, tier: Tier) -> u64;
     fn probe_names(&self) -> &'static [&'static str];
     fn fault_names(&self) -> &'static [&'static str];
+    /// probes that cannot fire on a tree where the property holds (name, reason); they are kept
+    /// because they fire under seeded changes
+    fn probes_zero_by_construction(&self) -> &'static [(&'static str, &'static str)] {
+        &[]
+    }
     fn lattice_size(&self) -> u32;
     fn lattice_desc(&self) -> &'static str;
     fn rule(&self) -> &'static str;
